@@ -231,6 +231,44 @@ Proof.
   - rewrite hget_hset, Hk. exact Hm.
 Qed.
 
+(* ---------- the same Request object executed again ---------- *)
+
+(* whatever counter the previous execution left (and whichever entry point is used: do() itself
+   restarts it), an execution makes at most N+1 attempts ... *)
+Theorem reexecution_bounded o s ins :
+  hooks_keep_attempt (ro_hooks o) -> (0 <= ro_max o)%Z ->
+  (Z.of_nat (length (res_wires (run_exec detect c true (Some o) s ins))) <= ro_max o + 1)%Z.
+Proof.
+  intros Hh HN. unfold run_exec, exec_start.
+  destruct (refused (Some o) (set_attempt s 0)) eqn:E.
+  - rewrite run_refused by exact E. cbn. lia.
+  - rewrite run_not_refused by exact E. apply attempts_bounded; [exact Hh|reflexivity|exact HN].
+Qed.
+
+(* ... continues exactly as a fresh request would, and numbers its retries from 1 again *)
+Theorem reexecution_exact o s ins j a :
+  hooks_keep_attempt (ro_hooks o) -> refused (Some o) (set_attempt s 0) = false ->
+  nth_error ins j = Some a -> (S j < length ins)%nat ->
+  let n := length (res_wires (run_exec detect c true (Some o) s ins)) in
+  (j < n)%nat -> ((S j < n)%nat <-> continues o (Z.of_nat j) a = true).
+Proof.
+  intros Hh E Hn Hl. unfold run_exec, exec_start. rewrite run_not_refused by exact E.
+  apply attempts_exact; [exact Hh|reflexivity|exact Hn|exact Hl].
+Qed.
+
+Theorem reexecution_hooks_from_one o s ins :
+  hooks_keep_attempt (ro_hooks o) -> refused (Some o) (set_attempt s 0) = false ->
+  let r := run_exec detect c true (Some o) s ins in
+  res_end r = EndNormal ->
+  res_hooks r =
+    flat_map (fun j => map (fun h => mkCall (hk_id h) (Z.of_nat (S j)) (view_of (a_out (nth j ins dflt_ain))))
+                           (rev (ro_hooks o)))
+             (seq 0 (pred (length (res_wires r)))).
+Proof.
+  intros Hh E. unfold run_exec, exec_start. rewrite run_not_refused by exact E.
+  apply hooks_once_per_retry; [exact Hh|reflexivity].
+Qed.
+
 End RunProofs.
 
 (* ---------- the pinned code does not have these properties ---------- *)
@@ -262,3 +300,21 @@ Theorem default_rule_pinned_refuted :
   length (res_wires (run_gen (fun _ => []) ex_client true (Some ex_ropt) ex_state ex_script_after)) = 1%nat /\
   length (res_wires (run (fun _ => []) ex_client (Some ex_ropt) ex_state ex_script_after)) = 2%nat.
 Proof. vm_compute. split; reflexivity. Qed.
+
+(* without the restart (the counter reset only in Send, say): a request whose first execution
+   used up its two retries gets none in the next one *)
+Definition ex_ropt2 : ropt := mkRopt 2 0 [] [].
+Definition ex_stale : rstate := mkR (bs "POST") [] [] [] [] [] None GBNil [] false 2 [] [] [] None.
+Definition ex_script3 : list ain := [mkAin (OErr 1 false) []; mkAin (OErr 1 false) []; mkAin (OStatus 200) []].
+
+Theorem stale_counter_refuted :
+  length (res_wires (run_exec (fun _ => []) ex_client false (Some ex_ropt2) ex_stale ex_script3)) = 1%nat /\
+  length (res_wires (run_exec (fun _ => []) ex_client true (Some ex_ropt2) ex_stale ex_script3)) = 3%nat.
+Proof. vm_compute. split; reflexivity. Qed.
+
+(* a round-trip wrapper's error next to a response is an error of the attempt: the default rule
+   retries it, and it is what Do returns when that attempt is the last *)
+Theorem wrapper_error_is_the_attempts_error s e :
+  fst (need_retry [] (view_of (OStatusErr s e))) = true /\
+  final_view (mkAin (OStatusErr s e) []) = mkView (Some s) (Some e).
+Proof. split; reflexivity. Qed.
